@@ -8,6 +8,7 @@ import sys
 from mc.core import UnitResult
 
 ID = "C10"
+PARTS = ['sched', 'hist', 'seeds', 'typing-cache', 'hsched', 'hseeds', 'hhist']      # outcome classes every run must produce (guards against a part of the exploration silently not running)
 RULE = ("(N) every iteration over a builtin set/frozenset inside pyanalyze is a choice point (AST instrumentation at import, mc/ndimport.py); each corpus program is checked under the "
         "identity schedule and under every schedule with one deviating site (quick) / one deviating occurrence and every pair of deviating sites (thorough); (S) explicit-state search "
         "over check histories: every sequence of corpus programs up to depth 2/3 on one shared Checker, then every program must render as on a fresh Checker; the corpus collides on "
